@@ -20,6 +20,7 @@ impl Panic {
 
 thread_local! {
     static LAST: RefCell<Option<Panic>> = const { RefCell::new(None) };
+    static IN_GUARD: std::cell::Cell<u32> = const { std::cell::Cell::new(0) };
 }
 
 pub fn install_panic_hook() {
@@ -43,12 +44,19 @@ pub fn install_panic_hook() {
             "<non-string panic>".into()
         };
         let first = msg.lines().next().unwrap_or("").to_string();
+        // a panic outside guard() is a bug of the harness itself: say so loudly
+        if IN_GUARD.with(|g| g.get()) == 0 {
+            eprintln!("HARNESS-ERROR: panic outside an engine call at {}: {}", site, first);
+        }
         LAST.with(|l| *l.borrow_mut() = Some(Panic { site, msg: first }));
     }));
 }
 
 pub fn guard<T>(f: impl FnOnce() -> T) -> Result<T, Panic> {
-    match catch_unwind(AssertUnwindSafe(f)) {
+    IN_GUARD.with(|g| g.set(g.get() + 1));
+    let r = catch_unwind(AssertUnwindSafe(f));
+    IN_GUARD.with(|g| g.set(g.get().saturating_sub(1)));
+    match r {
         Ok(v) => Ok(v),
         Err(_) => Err(LAST
             .with(|l| l.borrow_mut().take())
